@@ -374,9 +374,9 @@ def run(ctx):
     # ---- R20f: a pass that hands out labels respects the labels already handed out -------
     n_sites = 0
     for loop in [n for n in ast.walk(ra.node) if isinstance(n, ast.For)]:
-        if not isinstance(loop.target, ast.Name):
+        lvs = {x.id for x in ast.walk(loop.target) if isinstance(x, ast.Name)}
+        if not lvs:
             continue
-        lv = loop.target.id
         body_defs = {}
         for n in ast.walk(loop):
             if isinstance(n, ast.Assign) and len(n.targets) == 1 and \
@@ -386,7 +386,8 @@ def run(ctx):
             if isinstance(n, ast.Assign) and len(n.targets) == 1 and \
                     isinstance(n.targets[0], ast.Subscript) and \
                     isinstance(n.targets[0].value, ast.Name) and \
-                    isinstance(n.value, ast.Name) and n.value.id == lv:
+                    isinstance(n.value, ast.Name) and n.value.id in lvs:
+                lv = n.value.id
                 X = n.targets[0].value.id
                 seen, work = set(), [n.targets[0].slice]
                 while work:
